@@ -87,10 +87,13 @@ def genC18Cases (tier : String) (seed : Nat) : Array Case := Id.run do
   let mut out : Array Case := #[]
   let mut rng : Rng := ⟨UInt64.ofNat (seed * 275604541 + 53)⟩
   for b in [0:nbase] do
-    let (s, r1) := (match b % 3 with
+    let (s, r1) := (match b % 4 with
       | 0 => genC01 { suffixes := false, maxDepth := 3, maxComps := 6 }
       | 1 => genSupC02 2
-      | _ => genNestedSup { depth := 1, pairs := true }) rng
+      | 2 => genNestedSup { depth := 1, pairs := true }
+      -- pair combinations whose components are single values: the brace-level operator is the
+      -- only operator of the statement
+      | _ => genNestedSup { depth := 0, pairs := true, exprDepth := 0 }) rng
     rng := r1
     if !(supported s) then continue
     let exp := Json.str (showNode (denoteTop s))
@@ -104,10 +107,10 @@ def genC18Cases (tier : String) (seed : Nat) : Array Case := Id.run do
       let c1 : Case := { id := s!"c18-{b}-{v}", op := "parse", args := a1, exp := exp, tag := "permuted+refilled" }
       out := out.push c1
       -- the same variant with less whitespace / with punctuation around brace-level operators
-      let t2 := tightenOps (b + v) (String.ofList (renderS s'))
+      let t2 := tightenOps (if b % 4 = 3 then 2 * v else b + v) (String.ofList (renderS s'))
       if t2 ≠ String.ofList (renderS s') then
         -- `},[OR] Cac{`: text between an operand of a nested-statement combination and the operator
-        let kf := if (b + v) % 3 = 1 then "C18-text-between-nested-operands-kept-as-shared-text" else ""
+        let kf := if (if b % 4 = 3 then 2 * v else b + v) % 3 = 1 then "C18-text-between-nested-operands-kept-as-shared-text" else ""
         let c2 : Case := { id := s!"c18-{b}-{v}w", op := "parse", args := Json.mkObj [("text", (t2 : Json))], exp := exp, tag := "operator-whitespace",
                            note := Json.mkObj [("kf", (kf : Json))] }
         out := out.push c2
